@@ -128,11 +128,13 @@ def oracle_c09(ctx: Ctx, n=None):
     for plat in ("manylinux_2_28_x86_64", "macos_12_0_arm64", "macos_10_15_x86_64", "musllinux_1_2_aarch64"):
         e = EnvSpec.from_spec(">=3.8", plat)
         tags = [*e.platform.compatible_tags, "any"]
+        scores = []
         for i, t in enumerate(tags):
             ctx.count("oracle-C09", 1)
-            if e._evaluate_platform(t) != len(tags) - i:
-                ctx.finding(f"score|{plat}", "platform score is not list length minus index", {"platform": plat, "tag": t}, len(tags) - i, e._evaluate_platform(t))
-                break
+            scores.append(e._evaluate_platform(t))
+        # "the list order becomes the platform score": an accepted tag earlier in the list scores strictly higher (the values are not fixed)
+        if any(x is None for x in scores) or any(not (a > b) for a, b in zip(scores, scores[1:])):
+            ctx.finding(f"score|{plat}", "the platform score does not decrease strictly along the tag list", {"platform": plat, "tags": tags[:6]}, "strictly decreasing scores", scores[:12])
         if e._evaluate_platform("not_a_tag") is not None:
             ctx.finding(f"score-unknown|{plat}", "unknown platform tag accepted", {"platform": plat}, None, e._evaluate_platform("not_a_tag"))
     ctx.sample({"stream": "oracle-C09", "platform": "manylinux_2_28_aarch64", "tags": list(mk_platform("manylinux", 2, 28, "aarch64").compatible_tags)[:4]})
@@ -255,6 +257,7 @@ def oracle_c08(ctx: Ctx, n=None):
         admitted = [i for i in interps if any(s.contains("%d.%d.%d" % i) for s in sets)]
         for impl in IMPLS:
             spec = EnvSpec.from_spec(rp, None, impl[0] if impl else None, impl[1] if impl else False)
+            scored = []
             for (pfx, X, Y) in tag_universe(minors):
                 ptag = f"{pfx}{X}{'' if Y is None else Y}"
                 for abi in abi_tags(pfx, X, Y):
@@ -284,10 +287,20 @@ def oracle_c08(ctx: Ctx, n=None):
                     if ok:
                         ok = any(loadable(pfx, X, Y, abi_impl, i) for i in admitted)
                     exp = (X, Y or 0, rank) if ok else None
-                    if got != exp:
+                    if exp is not None and got is not None:
+                        # the property fixes the ORDER the score induces (interpreter version, then native ABI > abi3 > none), not its values
+                        scored.append((exp, tuple(got)[:3], ptag, abi))
+                    elif got != exp:
                         ctx.finding(f"compat|{pfx}{'XY' if Y is not None else 'X'}|{abi_impl.rstrip('0123456789') if abi_impl not in ('abi3', 'none') else abi_impl}|{'accepts' if got else 'rejects'}",
                                     "python/abi compatibility differs from 'some admitted interpreter can load it'",
                                     {"requires_python": rp, "implementation": impl, "python_tag": ptag, "abi_tag": abi}, exp, got)
+            # order consistency of the scores of the accepted pairs of this spec
+            scored.sort(key=lambda t: t[0])
+            for (e1, g1, p1, a1), (e2, g2, p2, a2) in zip(scored, scored[1:]):
+                if (e1 == e2 and g1 != g2) or (e1 < e2 and not g1 < g2):
+                    ctx.finding(f"score-order|{e1}|{e2}", "the scores of two accepted wheels do not order them by interpreter version, then native ABI > abi3 > none",
+                                {"requires_python": rp, "implementation": impl, "first": [p1, a1], "second": [p2, a2]}, {"expected_keys": [e1, e2]}, {"scores": [g1, g2]})
+                    break
     # compatibility(): lexicographic max over the product
     spec = EnvSpec.from_spec(">=3.8", "manylinux_2_28_x86_64", "cpython")
     for pys, abis, plats in [(["cp39", "py3"], ["abi3", "none"], ["manylinux_2_17_x86_64", "any"]), (["py3"], ["none"], ["any"]),
